@@ -287,6 +287,20 @@ def stage_apply_text(expr, sg, pr, alias=0):
         return m("add", *[vtext(v) for v in sg[1]])
     if k == "setRemove":
         return m("remove", *[vtext(v) for v in sg[1]])
+    if k == "keysView":
+        return expr + ".keys()"
+    if k == "self":
+        op, memo = sg[1], sg[2]
+        AGGS = ["$m.sum(0)", "$m.count()", "$m.max()", "$m.min()", "$m.first()", "$m.last()"]
+        body = {"zip": lambda: "$m.zip($m)",
+                "zipskip": lambda: "$m.zip($m.skip(%d))" % op[1],
+                "join": lambda: "$m.join($m, %s, %s)" % (L2_TEXT[op[1][0]], L2_TEXT[op[2][0]]),
+                "selagg": lambda: "$m.select($ * %d + %s)" % (op[1], AGGS[op[2]]),
+                "wheremax": lambda: "$m.where($ < $m.max())",
+                "selmany": lambda: "$m.selectMany($m.select($ + 0).limit(%d))" % op[1],
+                "firstall": lambda: "[$m.first(), $m.toList()]",
+                "countsum": lambda: "[$m.count(), $m.sum(0)]"}[op[0]]()
+        return "(let(m => %s%s) -> %s)" % (expr, ".memorize()" if memo else "", body)
     if k == "groupByAgg":
         agg = pr.wrap(["$.len()", "$.sum()", "$.first()"][sg[3]])
         return m("groupBy", lt(sg[1], pr), "aggregator => " + agg) if sg[2] is None else m("groupBy", lt(sg[1], pr), lt(sg[2], pr), agg)
@@ -429,6 +443,16 @@ def stage_gal(sg):
         return A("SSetAdd", gvals(sg[1]))
     if k == "setRemove":
         return A("SSetRemove", gvals(sg[1]))
+    if k == "keysView":
+        return "SKeysList"
+    if k == "self":
+        op = sg[1]
+        t = {"zip": lambda: "SelfZip", "zipskip": lambda: A("SelfZipSkip", gal.nat(op[1])),
+             "join": lambda: A("SelfJoin", l2(op[1]), l2(op[2])),
+             "selagg": lambda: A("SelfSelectAgg", gal.z(op[1]), gal.nat(op[2])),
+             "wheremax": lambda: "SelfWhereLtMax", "selmany": lambda: A("SelfSelectMany", gal.nat(op[1])),
+             "firstall": lambda: "SelfFirstAll", "countsum": lambda: "SelfCountSum"}[op[0]]()
+        return A("SSelf", t)
     if k == "groupByAgg":
         return A("SGroupByAgg", lam_gal(sg[1]), ol(sg[2]), gal.nat(sg[3]))
     if k == "attr":
@@ -485,7 +509,7 @@ STAGE_NAMES = {
     "dictGet": ["get"], "containsKey": ["containsKey"], "containsValue": ["containsValue"],
     "union": ["union"], "intersect": ["intersect"], "difference": ["difference", "#operator_-"],
     "symmetricDifference": ["symmetricDifference"], "setAdd": ["add"], "setRemove": ["remove"],
-    "groupByAgg": ["groupBy"], "groupByLegacy": ["groupBy"], "attr": ["#operator_."], "unpackNamed": [], "unpackIdx": [], "with": [],
+    "self": ["memorize"], "keysView": ["keys"], "groupByAgg": ["groupBy"], "groupByLegacy": ["groupBy"], "attr": ["#operator_."], "unpackNamed": [], "unpackIdx": [], "with": [],
     "zipLongest": ["zipLongest"], "listOf": ["list"], "mergeWithX": ["mergeWith"], "dictSetMany": ["set"], "dictSetInline": ["set"],
     "flatten": ["flatten"], "defaultIfEmpty": ["defaultIfEmpty"], "times": ["#operator_*"], "isList": ["isList"],
     "isDict": ["isDict"], "isSet": ["isSet"], "isIterable": ["isIterable"], "in": ["#operator_in"],
@@ -1019,6 +1043,15 @@ def gen_stage(rng, kind, shape, n, allow_terminal=True, streaming_only=False, ce
     raise ValueError(k)
 
 
+def gen_self(rng, shape, must_memo):
+    """a let-bound collection traversed again while a traversal of it is suspended"""
+    ops = [("zip",), ("zipskip", rng.randrange(0, 3)), ("firstall",), ("join", ("eq2",), (rng.choice(["pair2", "fst", "snd"]),))]
+    if shape == "int":
+        ops += [("selagg", rng.choice([1, 10, 100]), rng.randrange(6)), ("selagg", 100, 0), ("wheremax",), ("selmany", rng.randrange(0, 3)),
+                ("countsum",), ("join", (rng.choice(["gt2", "eq2"]),), (rng.choice(["add2", "pair2"]),))]
+    return ("self", rng.choice(ops), True if must_memo else rng.random() < 0.5)
+
+
 def gen_set_stage(rng, shape):
     k = rng.choice(["union", "intersect", "difference", "symmetricDifference", "setAdd", "setRemove"])
     return (k, tuple(gen_values(rng, shape, rng.randrange(0, 4))))
@@ -1145,6 +1178,10 @@ def gen_pipeline(rng, maxlen=4):
             if rr < 0.5:
                 stages.append(gen_dict_stage(rng))
                 continue
+            if rr < 0.56:
+                stages.append(("keysView",))
+                stages.append(gen_self(rng, "other", rng.random() < 0.5))
+                break
             if rr < 0.75:
                 t = rng.choice(["keysList", "valuesList", "itemsList"])
                 stages.append((t,))
@@ -1167,6 +1204,10 @@ def gen_pipeline(rng, maxlen=4):
                 stages.append((t,))
             kind = "scalar"
             continue
+        if kind in ("seq", "iter", "ord") and rng.random() < 0.09:
+            re_iterable = (not stages and kind == "seq") or (stages and stages[-1][0] in ("toList", "orderBy", "thenBy", "keysList", "valuesList", "itemsList", "splitAt"))
+            stages.append(gen_self(rng, shape, not re_iterable))
+            break
         if rng.random() < 0.03:
             stages.append(("cycle",))
             stages.append(("take", rng.randrange(0, 9)))
